@@ -6,7 +6,6 @@ import (
 	"encoding/json"
 	"errors"
 	"fmt"
-	"math"
 
 	sentinel "github.com/alibaba/sentinel-golang/api"
 	"github.com/alibaba/sentinel-golang/core/base"
@@ -46,7 +45,6 @@ func (P) Describe() harness.Description {
 			"Outbound requests must never get a system block; an inbound request is blocked with BlockTypeSystemFlow iff some loaded rule is violated by the reference inbound aggregates (pass QPS and average RT over the aligned metric window of the tallied inbound events, live inbound count, injected load / CPU; BBR: in-flight > peak per-bucket completion rate x minimum RT). " +
 			"non-trivial = an inbound request was blocked and a later one admitted while outbound traffic continued; distinct = hash(config, ops)",
 		Assumptions: []string{
-			"average RT may be the integer-truncated quotient: a trigger between floor(x) and x is ambiguous",
 			"BBR with at most one request in flight is ambiguous (the estimate is meaningless below two)",
 			"rule iteration order is unspecified: only the decision and the block type are compared",
 		},
@@ -265,10 +263,9 @@ func (P) Exec(c *harness.Case) *harness.Outcome {
 				comp := ref.Sum(model.KComplete, lo, hi)
 				rtSum := ref.Sum(model.KRt, lo, hi)
 				qps := float64(pass) * 1000 / float64(Iv)
-				avg, avgFloor := 0.0, 0.0
+				avg := 0.0
 				if comp > 0 {
 					avg = float64(rtSum) / float64(comp)
-					avgFloor = math.Floor(avg)
 				}
 				bbrExceeded := func() (bool, bool) {
 					if live <= 1 {
@@ -299,10 +296,8 @@ func (P) Exec(c *harness.Case) *harness.Outcome {
 							violated = true
 						}
 					case 1:
-						if avgFloor >= r.Trigger {
+						if avg >= r.Trigger {
 							violated = true
-						} else if avg >= r.Trigger {
-							ambiguous = true
 						}
 					case 0, 4:
 						reading := load
